@@ -27,6 +27,8 @@ func NewStateListener(next http.Handler, stateListener URLForwardingStateListene
 
 func (s *StateListener) ServeHTTP(rw http.ResponseWriter, req *http.Request) {
 	s.stateListener(req.URL, StateConnected)
+	// Deferred: the proxy aborts the handler (panic with http.ErrAbortHandler) when the backend
+	// fails in the middle of the response body, and the notification must not be lost then.
+	defer s.stateListener(req.URL, StateDisconnected)
 	s.next.ServeHTTP(rw, req)
-	s.stateListener(req.URL, StateDisconnected)
 }
